@@ -80,7 +80,7 @@ def _gen(rng, cmd, n, dts):
     rng.shuffle(order)
     case = {"kind": "value", "cmd": cmd, "inputs": ins, "params": params, "order": order}
     if "Weights" in params and rng.random() < 0.15:
-        case["weights_as"] = rng.choice(["float32", "float16", "float64", "int64"])       # NumPy scalars, as the programming interface may be handed
+        case["weights_as"] = rng.choice(["float32", "float32", "float64", "int64"])       # NumPy scalars, as the programming interface may be handed
         if case["weights_as"] == "int64":
             params["Weights"] = [int(rng.randint(1, 9)) for _ in range(n)]
     if cmd in LIST_CMDS and n >= 2 and rng.random() < 0.2:
@@ -145,7 +145,7 @@ def run_case(ctx, case):
     fcols0 = [arr.frac_cells(a) for a in inputs]        # what the inputs hold before anything ran on them
     fcols = [fcols0[i] for i in refs] if refs else fcols0
     call_params = params
-    if case.get("weights_as") and "Weights" in params:
+    if case.get("weights_as") and "Weights" in params and all(s_["dtype"] in ("int64", "float64") for s_ in case["inputs"]):
         conv = getattr(numpy, case["weights_as"])
         if all(float(conv(w)) == float(w) for w in params["Weights"]):
             call_params = dict(params, Weights=[conv(w) for w in params["Weights"]])
@@ -169,7 +169,7 @@ def run_case(ctx, case):
             if not isinstance(res, numpy.ndarray) or tuple(res.shape) != tuple(inputs[0].shape):
                 ctx.fail("%s:shape" % cmd, {"got": list(getattr(res, "shape", [])), "want": list(inputs[0].shape)})
             else:
-                f32 = any(s["dtype"] == "float32" for s in case["inputs"])
+                f32 = any(s["dtype"] == "float32" for s in case["inputs"]) or (call_params is not params and case.get("weights_as") == "float32")     # NumPy computes in single precision then
                 small = [numpy.iinfo(s["dtype"]).max for s in case["inputs"] if s["dtype"] in ("int16", "int32")]
                 bound = min(small + ([numpy.iinfo(res.dtype).max] if res.dtype.kind in "iu" else []) or [None]) if (small or res.dtype.kind in "iu") else None
                 if bound is not None and cmd in ("Multiply", "Sum", "WeightedSum", "WeightedMean", "Mean", "AMinusB"):
@@ -223,7 +223,7 @@ def run_case(ctx, case):
             ctx.fail("%s:order-dependent-outcome" % cmd, {"order": order, "dtypes": [s["dtype"] for s in case["inputs"]],
                                                            "base": out.err and (out.inner() or out.err), "permuted": pout.err and (pout.inner() or pout.err), "params": params})
         elif out.ok:
-            f32 = any(s["dtype"] == "float32" for s in case["inputs"])
+            f32 = any(s["dtype"] == "float32" for s in case["inputs"]) or case.get("weights_as") == "float32"
             bad = ref.compare(pout.value, [None if c is None else Fraction(c) for c in arr.cells(out.value)], scale=1.0, rel=1e-5 if f32 else 1e-12)
             if bad and want is not None:
                 ctx.fail("%s:order-dependent-value" % cmd, {"order": order, "diff": bad[:1] + bad[1:], "params": params})
